@@ -47,6 +47,9 @@ CHECKS = {
  "C17": dict(cat="exploration", tech="runtime monitoring, exhaustive over block partitions (n<=5 quick / 6 thorough) x buffer capacities: executed generated C++ CopyTo (single, batch, fallback batch) and Python write modes on shape-alternating item sequences, reference decode of the output",
    text="Item sequences were preserved for every explored (partition, capacity, input format, write mode); exhaustive over partitions of short streams, sampled for long ones.",
    note="Trusted: reference codec controls the input block partition; equality on canonical values.", ref="§5 C17"),
+ "C08": dict(cat="exploration", tech="runtime monitoring of generate + execution/compilation of its output: fresh-interpreter import and construction of every generated Python writer/serializer, g++ -std=c++17 -fsyntax-only of every generated TU, file.write event log checked for path collisions; hostile-identifier, option-matrix and init workloads",
+   text="Held for the ordinary corpus and the option matrix; hostile identifiers expose six listed known-finding classes (namespace shadowing, case-conversion collisions, helper-name collisions, version labels, init names, vector<bool>). Exploration over the identifier lists.",
+   note="Trusted: g++ 12 with harness shims (no xtensor/date/HDF5); MATLAB output is not parsed; hdf5 TUs are not compiled.", ref="§5 C08"),
 }
 NA_REASON = "check not built yet in this session (work in progress, see DESIGN.md §5 for the planned monitor)"
 
